@@ -23,7 +23,11 @@ func (fr *Frame) call(c *ssa.CallCommon, instr *ssa.Call, st *State, pos token.P
 	} else if fv := fr.val(c.Value); fv.Fn != nil {
 		name = fr.fx.eng.shortName(fv.Fn)
 	}
-	fr.anchoredAsserts(name, c, st, pos)
+	var blk *ssa.BasicBlock
+	if instr != nil {
+		blk = instr.Block()
+	}
+	fr.anchoredAsserts(name, c, st, pos, blk)
 	res := fr.call1(c, instr, st, pos)
 	if fr.top && fr.fx.contract != nil {
 		fr.ghostAnchors("call:"+name, st)
@@ -384,7 +388,7 @@ func (fr *Frame) applyContract(ct *FuncContract, fn *ssa.Function, sig *types.Si
 		fx.oblige(st, "pre", site+".receiver-nonnil", Not(Eq(fx.materialize(args[0], fn.Signature.Recv().Type()), Nil)), pos)
 	}
 	for i, c := range ct.Requires {
-		g, err := env.evalBool(c.Expr)
+		g, err := env.evalGoal(c.Expr)
 		if err != nil {
 			fx.unsupported = append(fx.unsupported, fmt.Sprintf("precondition %q of %s: %v", c.Src, name, err))
 			continue
@@ -1082,7 +1086,7 @@ func (fx *FnExec) pureUF(name string, args []Val, tys []types.Type, rt types.Typ
 // anchoredAsserts checks `assert @call:<glob> expr` clauses of the function under verification at a call site.
 // In expr, arg0..argN are the actual arguments (arg0 = receiver of an interface call) and `it` ranges over the
 // string-typed arguments (one obligation per string argument).
-func (fr *Frame) anchoredAsserts(name string, c *ssa.CallCommon, st *State, pos token.Pos) {
+func (fr *Frame) anchoredAsserts(name string, c *ssa.CallCommon, st *State, pos token.Pos, blk *ssa.BasicBlock) {
 	fx := fr.fx
 	if !fr.top || fx.contract == nil || len(fx.contract.Asserts) == 0 {
 		return
@@ -1105,11 +1109,9 @@ func (fr *Frame) anchoredAsserts(name string, c *ssa.CallCommon, st *State, pos 
 			vals = append(vals, fr.val(x))
 			tys = append(tys, x.Type())
 		}
-		env := fr.specEnv(st, nil, nil)
-		// locals visible at this block
-		if len(fr.fn.Blocks) > 0 {
-			env.at = nil
-		}
+		env := fr.specEnv(st, blk, nil)
+		fr.atInside = true // the call sits inside its block: values defined earlier in the block are visible
+		defer func() { fr.atInside = false }()
 		for i := range vals {
 			env.vars[fmt.Sprintf("arg%d", i)] = SVal{V: vals[i], Ty: tys[i]}
 		}
